@@ -271,29 +271,35 @@ Definition det3 (a b c d e f g h i : Q) : Q :=
 
 Definition sumQ (l : list Q) : Q := fold_right Qplus 0 l.
 
+(** moments of the source points and the determinant of the normal matrix *)
+Definition moments (X : list (Q * Q)) : Q * Q * Q * Q * Q * Q :=
+  (sumQ (map (fun p => fst p * fst p) X), sumQ (map (fun p => fst p * snd p) X),
+   sumQ (map (fun p => snd p * snd p) X), sumQ (map fst X), sumQ (map snd X),
+   inject_Z (Z.of_nat (length X))).
+
+Definition normal_det (X : list (Q * Q)) : Q :=
+  let '(sxx, sxy, syy, sx, sy, n) := moments X in det3 sxx sxy sx sxy syy sy sx sy n.
+
+(** right-hand side of the normal equations for one output coordinate *)
+Definition normal_rhs (XY : list ((Q * Q) * (Q * Q))) (sel : Q * Q -> Q) : Q * Q * Q :=
+  (sumQ (map (fun p => fst (fst p) * sel (snd p)) XY),
+   sumQ (map (fun p => snd (fst p) * sel (snd p)) XY),
+   sumQ (map (fun p => sel (snd p)) XY)).
+
+Definition cramer3 (X : list (Q * Q)) (rhs : Q * Q * Q) : Q * Q * Q :=
+  let '(sxx, sxy, syy, sx, sy, n) := moments X in
+  let '(r0, r1, r2) := rhs in
+  let D := normal_det X in
+  (det3 r0 sxy sx r1 syy sy r2 sy n / D,
+   det3 sxx r0 sx sxy r1 sy sx r2 n / D,
+   det3 sxx sxy r0 sxy syy r1 sx sy r2 / D).
+
 Definition affine_from_pts (X Y : list (Q * Q)) : res aff :=
   if negb (Nat.eqb (length X) (length Y)) then Err (EAssert 478)
   else if negb (3 <=? Z.of_nat (length X))%Z then Err (EAssert 479)
+  else if Qeq_bool (normal_det X) 0 then Err EOther   (* rank deficient: outside the contract *)
   else
-    let xs := map fst X in
-    let ys := map snd X in
-    let sxx := sumQ (map (fun p => fst p * fst p) X) in
-    let sxy := sumQ (map (fun p => fst p * snd p) X) in
-    let syy := sumQ (map (fun p => snd p * snd p) X) in
-    let sx := sumQ xs in
-    let sy := sumQ ys in
-    let n := inject_Z (Z.of_nat (length X)) in
-    let D := det3 sxx sxy sx sxy syy sy sx sy n in
-    if Qeq_bool D 0 then Err EOther          (* rank deficient: outside the contract *)
-    else
-      let XY := combine X Y in
-      let solve (sel : Q * Q -> Q) :=
-        let r0 := sumQ (map (fun p => fst (fst p) * sel (snd p)) XY) in
-        let r1 := sumQ (map (fun p => snd (fst p) * sel (snd p)) XY) in
-        let r2 := sumQ (map (fun p => sel (snd p)) XY) in
-        (det3 r0 sxy sx r1 syy sy r2 sy n / D,
-         det3 sxx r0 sx sxy r1 sy sx r2 n / D,
-         det3 sxx sxy r0 sxy syy r1 sx sy r2 / D) in
-      let '(a, b, c) := solve fst in
-      let '(d, e, f) := solve snd in
-      Ok (mkAff a b c d e f).
+    let XY := combine X Y in
+    let '(a, b, c) := cramer3 X (normal_rhs XY fst) in
+    let '(d, e, f) := cramer3 X (normal_rhs XY snd) in
+    Ok (mkAff a b c d e f).
